@@ -90,7 +90,7 @@ pub enum Op {
     Donate { denom: Funds },
     AddValidator { sender: P, which: u8 },
     RemoveValidator { sender: P, which: u8 },
-    TransferOwnership { sender: P },
+    TransferOwnership { sender: P, to: P },
     AcceptOwnership { sender: P },
     RevokeOwnership { sender: P },
     UpdateConfig { sender: P, sections: u8 },
@@ -118,7 +118,7 @@ impl Op {
             | Op::ResumeStaked { sender }
             | Op::AddValidator { sender, .. }
             | Op::RemoveValidator { sender, .. }
-            | Op::TransferOwnership { sender }
+            | Op::TransferOwnership { sender, .. }
             | Op::AcceptOwnership { sender }
             | Op::RevokeOwnership { sender }
             | Op::UpdateConfig { sender, .. } => Some(sender),
@@ -359,9 +359,9 @@ pub fn run(b: &mut Built, op: &Op, pfx: &str, env: Envelope) -> StepOut {
             };
             b.chain.execute(&s, &[], ExecuteMsg::RemoveValidator { validator: v })
         }
-        Op::TransferOwnership { sender } => {
+        Op::TransferOwnership { sender, to } => {
             let s = who_addr(&who, sender);
-            b.chain.execute(&s, &[], ExecuteMsg::TransferOwnership { new_owner: who.nominee.clone() })
+            b.chain.execute(&s, &[], ExecuteMsg::TransferOwnership { new_owner: who_addr(&who, to) })
         }
         Op::AcceptOwnership { sender } => {
             let s = who_addr(&who, sender);
@@ -710,6 +710,11 @@ pub fn post_op(cx: &Ctx, b: &Built, op: &Op, s: &StepOut) {
         claim(f, "C10:halted contract refuses value-moving message", !s.tx.is_ok());
         claim(f, "C10:refused message leaves storage byte-identical", pre.raw == post.raw);
     }
+    // C08 / C12: the admin, the nominee and the lock are touched by the three ownership messages only, so the account the
+    // nomination obligations establish is still the nominated one when an acceptance is judged against it
+    if !matches!(op, Op::TransferOwnership { .. } | Op::RevokeOwnership { .. } | Op::AcceptOwnership { .. }) {
+        claim(f, "C12:only ownership messages touch the admin, the nominee and the lock", post.admin == pre.admin && post.pending_owner == pre.pending_owner && post.min_time == pre.min_time);
+    }
     // C16
     if let Tx::Panic(p) = &s.tx {
         prove(f, &format!("C16:no panic [{}]", panic_key(p)), "false".into());
@@ -803,12 +808,14 @@ pub fn post_op(cx: &Ctx, b: &Built, op: &Op, s: &StepOut) {
                     if let Some(Emitted::Transfer { receiver, amount, .. }) = lst_tr.first().map(|x| **x) {
                         claim(f, "C03:LST transfer goes to the chosen recipient", *receiver == recipient);
                         prove(f, "C03:IBC delivery carries exactly the minted amount", t::eq(amount, &m_term));
+                        prove(f, "C04:the recipient is delivered exactly floor(amount*totalLST/totalStaked) [ibc]", t::eq(amount, &m_spec));
                     }
                 } else {
                     claim(f, "C03:protocol-chain recipient gets one bank send and no IBC transfer", lst_sends.len() == 1 && lst_tr.is_empty());
                     if let Some(Emitted::Send { to, coins, from, .. }) = lst_sends.first() {
                         claim(f, "C03:bank send goes from the contract to the chosen recipient only", *to == recipient && *from == who.contract && coins.len() == 1);
                         prove(f, "C03:bank delivery carries exactly the minted amount", t::eq(&coins[0].1, &m_term));
+                        prove(f, "C04:the recipient is delivered exactly floor(amount*totalLST/totalStaked) [bank]", t::eq(&coins[0].1, &m_spec));
                     }
                 }
                 claim(f, "C03:stake emits no other message", msgs.len() == 1 + 1 + 1 + posts(msgs).len());
@@ -1169,8 +1176,16 @@ pub fn post_op(cx: &Ctx, b: &Built, op: &Op, s: &StepOut) {
                 claim(f, "C14:remove changes exactly the named validator", c == post.cfg && raw_equal_except(&pre.raw, &post.raw, &[b"config"]));
             }
         }
-        Op::TransferOwnership { sender } | Op::RevokeOwnership { sender } => {
+        Op::TransferOwnership { sender, .. } | Op::RevokeOwnership { sender } => {
             if s.tx.is_ok() {
+                if let Op::TransferOwnership { to, .. } = op {
+                    // the nominated account is defined by the most recent nomination, whatever was pending before
+                    let named = who_addr(who, to);
+                    claim(f, "C08:after a nomination exactly the named account is the one able to accept", post.pending_owner.as_deref() == Some(named.as_str()));
+                    claim(f, "C12:a nomination (first or newer) records the named account and restarts the 7-day lock", post.pending_owner.as_deref() == Some(named.as_str()) && post.min_time == Some(s.now + 7 * 86400));
+                } else {
+                    claim(f, "C12:revocation clears the nomination and the lock", post.pending_owner.is_none() && post.min_time.is_none());
+                }
                 claim(f, "C08:ownership nomination / revocation only for the admin", Some(who_addr(who, sender)) == pre.admin);
                 claim(f, "C12:nomination / revocation does not change the admin", post.admin == pre.admin);
                 claim(f, "C12:only the state item changes", raw_equal_except(&pre.raw, &post.raw, &[b"state"]));
